@@ -172,6 +172,13 @@ def gen_fourier(rng, tier):
                               rng.randint(-(enc[2] // 2) * m, (enc[2] - enc[2] // 2 - 1) * m) / m] for i in range(n)]
             c['recon'][0], c['enc'][0] = 1, 1
         out.append(c)
+    # fixed: as many Cartesian samples as grid points, ascending, one point twice and one never (the already-sorted shortcut must not apply)
+    for enc, kz, ky, kx in (([1, 1, 8], [0], [0], [-4, -3, -2, -1, 0, 0, 1, 2]), ([1, 4, 2], [0], [-2, -1, 0, 0], [-1, 0]),
+                            ([1, 1, 6], [0], [0], [0, 0, 0, 0, 0, 0]), ([1, 4, 4], [0], [-2, -1, 0, 1], [-2, -2, 0, 1])):
+        out.append({'recon': list(enc), 'enc': list(enc), 'kind': 'cart_full_count_duplicate', 'seed': 1, 'kz': kz, 'ky': ky, 'kx': kx})
+    # fixed: non-Cartesian samples beyond the edge of the encoded k-space (|k| > N_enc / 2): still exp(-2 pi i k r / N_enc)
+    for pts in ([[0.25, 0.0], [2.5, -1.0], [-3.25, 0.5], [1.0, 3.5], [-2.0, -3.75], [3.0, 3.0]], [[0.125, 2.75], [-2.5, 0.0], [1.5, -2.5], [0.0, 0.0]]):
+        out.append({'recon': [1, 4, 4], 'enc': [1, 4, 4], 'kind': 'noncart', 'seed': 2, 'points2d': pts, 'overshoot': True})
     return out
 
 
